@@ -146,3 +146,58 @@ func FuzzC23(f *testing.F) {
 		t.Fatalf("%v", ff)
 	})
 }
+
+// FuzzC02: any program text that compiles, with and without the optimiser,
+// must behave alike on the lines that follow (oracle: runC02, as in the rapid
+// check). Programs that read the wall clock are skipped: the two copies run at
+// different instants.
+func FuzzC02(f *testing.F) {
+	st := vstat.New("C02", "")
+	st.Probes(f, func(raw json.RawMessage) *vstat.Failure {
+		c, err := vstat.JSON[c02Case](raw)
+		if err != nil {
+			return vstat.Failf("bad-replay", "%v", err)
+		}
+		ff, _ := runC02(c)
+		return ff
+	})
+	sep := []byte("\n\x00\n")
+	for _, p := range loadCorpus() {
+		if len(p) <= 4096 {
+			f.Add(append(append([]byte(p), sep...), []byte("foo 1 2.5 bar\n17 3.5 w\n")...))
+		}
+	}
+	for _, s := range []string{
+		"gauge g\ngauge h\ncounter d by k\n/(?P<i>\\d+) (?P<f>\\d+\\.\\d+)/ {\n  g = 2 ** 3 % 5 + $i * (4 - 1)\n  h = 1.5 * 2 + $f / (2 + 2.0)\n  d[3 * 7]++\n  $i > 2 + 3 * 1 {\n    d[\"x\"]++\n  }\n  del d[1 + 1] after 1h\n}\n",
+		"gauge g\n/(\\d+)/ {\n  g = 10 / (3 - 1) % 2 - -4\n  g += 1 << 2 + 1\n  g = strtol($1, 8 + 2)\n}\n",
+	} {
+		f.Add(append(append([]byte(s), sep...), []byte("17 3.5\n5 0.5\n")...))
+	}
+	f.Fuzz(func(t *testing.T, data []byte) {
+		if len(data) > 8192 || bytes.Contains(data, []byte("timestamp")) {
+			return
+		}
+		src, lines := data, []byte(nil)
+		if i := bytes.Index(data, sep); i >= 0 {
+			src, lines = data[:i], data[i+len(sep):]
+		}
+		if len(src) == 0 {
+			return
+		}
+		c := c02Case{Raw: vstat.Q(src)}
+		for _, l := range strings.Split(string(lines), "\n") {
+			if len(c.Lines) < 6 {
+				c.Lines = append(c.Lines, l)
+			}
+		}
+		ff, _ := runC02(c)
+		if ff == nil {
+			return
+		}
+		if st.LiveFor(ff.Sig) != "" {
+			return
+		}
+		fuzzReport("C02", ff, c)
+		t.Fatalf("%v", ff)
+	})
+}
